@@ -9,7 +9,7 @@ from sa import pm, te, tm
 from sa.core import Ctx
 from sa.sm import call_kw, const_str, dotted, find_calls, fstring_skeleton, norm
 
-from . import common, printers
+from . import common, printers, util
 from .c11 import grammar
 
 LADDER = {
@@ -274,10 +274,26 @@ def run(ctx: Ctx):
 
     # ---- R01.f definition before use ----------------------------------------------------------------------
     ctx.rule("R01.f", "definition before use: dependencies are complete, the sorter receives (name, *its dependencies), rhs prints x.symbol = x.expr before values[k] = x.symbol, the template orders unpacking, allocation, body, return", floor=5)
+    from sa import av as _avf
+
     fd = sm.func("atoms.py", "Expression._find_dependencies")
-    loops = [n for n in ast.walk(fd.node) if isinstance(n, ast.For)]
-    okd = bool(loops) and norm(loops[0].iter) == "self.tree.iter_subtrees()" and len(loops[0].body) == 1 and isinstance(loops[0].body[0], ast.If) and norm(loops[0].body[0].test).replace('"', "'") == "tree.data == 'variable'" and norm(loops[0].body[0].body[0]) == "deps.add(str(tree.children[0]))"
-    ctx.check(okd, "R01.f", fd.key("complete"), "every `variable` subtree is a dependency", "Expression._find_dependencies does not record every `variable` node of the expression tree (a used name could be missing from the dependency graph and be defined after its use)", fd.where())
+    fv = util.value_of(ctx, fd)
+    if _avf.has_unk(fv):
+        ctx.undecided("R01.f", fd.key("complete"), f"what _find_dependencies collects is not understood ({_avf.find_all(fv, 'unk')[0][1]})", fd.where())
+    else:
+        inner = fv
+        while inner[0] == "call" and inner[1] in ("frozenset", "set", "tuple", "sorted", "list") and len(inner[2]) == 1:
+            inner = _avf._unwrap_seq(inner[2][0])
+        inner = _avf._unwrap_seq(inner)
+        okd = False
+        if inner[0] == "comp":
+            bv = ("bv", inner[1])
+            it_ok = inner[2] == ("mcall", ("sym", "self.tree"), "iter_subtrees", (), ())
+            cond_ok = inner[4] == (("cmp", "==", ("attr", bv, "data"), _avf.C("variable")),)
+            first = ("sub", ("attr", bv, "children"), _avf.C(0))
+            item_ok = len(inner[3]) == 1 and inner[3][0] in (_avf.mk_s((("h", first),)), first, ("attr", first, "value"))
+            okd = it_ok and cond_ok and item_ok
+        ctx.check(okd, "R01.f", fd.key("complete"), "every `variable` subtree is a dependency", f"Expression._find_dependencies collects {_avf.show(fv)[:140]}, not the name of every `variable` node of the expression tree (a used name could be missing from the dependency graph and be defined after its use)", fd.where())
     sa = sm.func("ode.py", "sort_assignments")
     adds = [c for c in ast.walk(sa.node) if isinstance(c, ast.Call) and norm(c.func) == "sorter.add"]
     oka = bool(adds) and len(adds[0].args) == 2 and norm(adds[0].args[0]).endswith(".name") and isinstance(adds[0].args[1], ast.Starred)
@@ -290,7 +306,6 @@ def run(ctx: Ctx):
         oka = any(f"{av}.value.dependencies" in s_ for s_ in srcs)
     so = any(isinstance(c, ast.Call) and norm(c.func) == "sorter.static_order" for c in ast.walk(sa.node))
     ctx.check(oka and so, "R01.f", sa.key("node-predecessors"), "sorter.add(name, *dependencies of that assignment); static_order()", "sort_assignments does not feed graphlib with (assignment name, *its own dependencies) or does not use static_order(): definitions could be printed after their use", sa.where())
-    from . import util
 
     cg = util.nf(ctx, "codegen/base.py", "CodeGenerator.rhs")
     loops = [n for n in ast.walk(cg.node) if isinstance(n, ast.For) and "sorted_assignments" in util.ctext(cg, n.iter) and isinstance(n.target, ast.Name)]
@@ -484,7 +499,6 @@ def assembly(ctx: Ctx, rule: str):
     ctx.check(rets == ["build_expression(self.tree, symbols=symbols)"], rule, er.key(), "build_expression(self.tree, symbols)", f"Expression.resolve returns {rets}", er.where())
     from sa import av as _av
 
-    from . import util
 
     T = tm.TemplateModel(sm)
     mt = T.func("templates/python.py", "method")
